@@ -259,14 +259,32 @@ def r5_refcounts(ctx):
     r.check('Add' in writers.get(sc, ()), 'refs|inc|Streams::clone', '', 'Streams::clone increments Inner.refs')
 
 
-def r6_idle_client(ctx):
-    r = ctx.rule('C19.R6', 'PASS', 'the idle client closes itself: GOAWAY(NO_ERROR) when no streams and no other references remain')
+def r6_idle_client(ctx, rid='C19.R6'):
+    r = ctx.rule(rid, 'PASS', 'the idle client closes itself: GOAWAY(NO_ERROR) when no streams and no other references remain')
     F = ctx.facts
     cp = F.fn('<client::Connection as std::future::Future>::poll') or r.fn('<client::Connection as futures_core::Future>::poll')
     if cp:
         m = [bi for bi, t in cp.calls_to('proto::connection::Connection::maybe_close_connection_if_no_streams')]
         p = [bi for bi, t in cp.calls(lambda t: t['fn'] in ('proto::connection::Connection::poll', '<proto::connection::Connection as std::future::Future>::poll'))]
         r.check(bool(m) and bool(p) and all(cp.dominated_by_blocks(x, m) for x in p), 'client|order', cp.file, 'client::Connection::poll calls maybe_close_connection_if_no_streams before polling the connection')
+        # the post-poll re-check: handles dropped on another thread while this poll ran find Actions.task empty (every
+        # wake consumes it), so the poll itself must notice the transition "had streams or references -> has none"
+        HS = 'proto::connection::Connection::has_streams_or_other_references'
+        hs = [bi for bi, t in cp.calls_to(HS)]
+        wakes = [bi for bi, t in cp.calls(lambda t: t['fn'].endswith('Waker::wake_by_ref') or t['fn'].endswith('Waker::wake'))]
+        pre = [b for b in hs if p and all(cp.dominated_by_blocks(x, [b]) for x in p)]
+        post = [b for b in hs if p and cp.dominated_by_blocks(b, p)]
+        r.check(bool(pre) and bool(post) and bool(wakes), 'client|recheck|snapshots', cp.file,
+                'client::Connection::poll samples has_streams_or_other_references() before and after polling the connection (%d before, %d after)' % (len(pre), len(post)))
+        te = core.guard_edges(F, cp, [HS], lambda l: l is True)
+        fe = core.guard_edges(F, cp, [HS], lambda l: l is False)
+        for w in wakes:
+            ok = bool(te) and bool(fe) and cp.dominated_by_edges(w, te) and cp.dominated_by_edges(w, fe)
+            atoms = core.dominating_atoms(F, cp, w)
+            extra = sorted(a for a in atoms if a not in ('call:has_streams_or_other_references', 'call:is_pending', 'call:poll', 'call:map_err'))
+            r.check(ok and not extra, 'client|recheck|guard', cp.loc(w),
+                    'the extra wake-up happens exactly when the poll is pending, streams-or-references existed before it and none exist after it (conditions: %s)%s' % (
+                        sorted(atoms), '' if ok and not extra else ' — a narrower "before" test misses handles dropped by another thread during the poll: the connection parks with no waker registered and never sends its GOAWAY'))
     mc = r.fn('proto::connection::Connection::maybe_close_connection_if_no_streams')
     if mc:
         edges = core.guard_edges(F, mc, ['proto::streams::streams::Streams::has_streams_or_other_references', 'proto::connection::Connection::has_streams_or_other_references'], lambda l: l is False)
@@ -283,8 +301,8 @@ def r6_idle_client(ctx):
             r.check(e[0] == 'const' and e[1] == 0, 'maybe_close|NO_ERROR', mc.loc(g), 'reason = NO_ERROR')
 
 
-def r8_last_ref_wakes(ctx):
-    r = ctx.rule('C19.R8', 'GUARD', 'dropping the last handle of a closed stream wakes the connection task, whatever queues or reset memory the stream is still in')
+def r8_last_ref_wakes(ctx, rid='C19.R8'):
+    r = ctx.rule(rid, 'GUARD', 'dropping the last handle of a closed stream wakes the connection task, whatever queues or reset memory the stream is still in')
     F = ctx.facts
     f = r.fn(P + 'streams::drop_stream_ref')
     if not f:
